@@ -19,8 +19,15 @@ import (
 // c14Docs are JSON texts; "raw:" marks file contents used verbatim (not valid JSON).
 var c14Docs = []string{
 	`{"a":1,"b":[1,2,3]}`, `{"a":2,"b":[1,3,2]}`, `[1,2,2,3]`, `[3,2,1]`, `[{"id":1,"v":1},{"id":2,"v":2}]`, `[{"id":2,"v":2},{"id":1,"v":3}]`,
-	`[1,[1.0],{"a":2.0},5]`, `[2,[1.05],{"a":2.04},5,[1.0]]`, `{"a":{"b":{"c":{"x":1,"y":2,"z":[1,2,3]}}}}`, `{"a":{"b":{"c":{"x":3,"y":4,"z":[1]}}}}`, ``, `{"a":{"b":"x"}}`, `{"a":{"b":"y","c":[true]}}`, `"str"`, `[[1,2],[2,1]]`, `[[2,1]]`,
+	`{"pct":"100% done %s %d","v":[1,"50%"]}`, `[1,[1.0],{"a":2.0},5]`, `[2,[1.05],{"a":2.04},5,[1.0]]`, `{"a":{"b":{"c":{"x":1,"y":2,"z":[1,2,3]}}}}`, `{"a":{"b":{"c":{"x":3,"y":4,"z":[1]}}}}`, ``, `{"a":{"b":"x"}}`, `{"a":{"b":"y","c":[true]}}`, `"str"`, `[[1,2],[2,1]]`, `[[2,1]]`,
 }
+
+func init() {
+	// one line of more than 64 KiB (line-buffer limits), used in the quick tier too
+	big := `{"a":1,"big":"` + strings.Repeat("y", 70000) + `"}`
+	c14Docs = append(c14Docs[:8:8], append([]string{big}, c14Docs[8:]...)...)
+}
+
 var c14Raw = []string{"raw:{invalid", "raw:a: [1, 2]\nb: x\n", "raw:msg: |\n  line one\n  line two\n", "raw:  a: 1\n  b:\n  - x\n", "raw:\n\n[1,2]\n\n"}
 
 type c14Flags struct {
@@ -166,7 +173,7 @@ func init() {
 		Bounds: func(tier string) map[string]interface{} {
 			n := len(c14Docs)
 			if tier != "thorough" {
-				n = 11
+				n = 13
 			}
 			return map[string]interface{}{"input_files": n, "raw_inputs": len(c14Raw), "flag_vectors": len(c14FlagSpace(tier)), "binaries": c14Bins}
 		},
@@ -176,14 +183,25 @@ func init() {
 			return []string{"diff/exit=0", "diff/exit=1", "diff/exit=2", "patch-roundtrip", "translate", "invalid", "git-diff-driver"}
 		},
 		Assume: []string{"the CLI contract model is the composition of library calls described in DESIGN.md section 6 (C14) and Appendix B", "no verdict on the wording of error messages or the usage text"},
-		Budget: budget(6*time.Minute, 45*time.Minute),
+		Budget: budget(9*time.Minute, 45*time.Minute),
 	})
 }
 
 func enumC14(tier string, e *engine.Emitter) {
+	// quick tier: the 64 KiB-line document meets only itself, the first document and the empty file
+	skipBig := func(a, b string) bool {
+		if tier == "thorough" || (len(a) < 65536 && len(b) < 65536) {
+			return false
+		}
+		other := a
+		if len(a) >= 65536 {
+			other = b
+		}
+		return !(other == c14Docs[0] || other == "" || len(other) >= 65536)
+	}
 	docs := c14Docs
 	if tier != "thorough" {
-		docs = docs[:11]
+		docs = docs[:13]
 	}
 	flags := c14FlagSpace(tier)
 	for _, bin := range c14Bins {
@@ -191,6 +209,9 @@ func enumC14(tier string, e *engine.Emitter) {
 			fs := f.String()
 			for _, a := range docs {
 				for _, b := range docs {
+					if skipBig(a, b) {
+						continue
+					}
 					e.Emit(engine.Case{Kind: "c14diff:" + bin, Leg: "diff/" + bin, A: a, B: b, X: fs})
 				}
 			}
@@ -204,6 +225,9 @@ func enumC14(tier string, e *engine.Emitter) {
 		for _, t := range []string{"jd2patch", "patch2jd", "jd2merge", "merge2jd", "json2yaml", "yaml2json"} {
 			for _, a := range docs {
 				for _, b := range docs {
+					if skipBig(a, b) {
+						continue
+					}
 					for _, io := range []string{"", "@o", "@stdin"} {
 						e.Emit(engine.Case{Kind: "c14trans:" + bin, Leg: "translate/" + bin, A: a, B: b, X: t + " " + io})
 					}
